@@ -101,19 +101,19 @@ Section Run.
         match acan_trigger mc (fun cb => ev cb (ac_payload h)) (fun cb => suspf cb (ac_payload h)) c
                            (ac_event h) (mstate_of w (ac_model h)) with
         | (tr, s', r) =>
-            let w' := mkAW (set_mstate (aw_states w) (ac_model h) s') (aw_queues w) (S (aw_next w)) in
-            (L [L [e_ablock (mkAB q tr (aresult_of r))]; e_aresult (aresult_of r); e_states w'; N (pending w')], w')
+            let w' := mkAW (set_mstate (aw_states w) (ac_model h) s') (aw_queues w) (S (aw_next w)) (aw_models w) in
+            (L [L [e_ablock (mkAB q tr (aresult_of r))]; e_aresult (aresult_of r); e_states w'; N (pending w'); e_list e_nat (aw_models w')], w')
         end
     | k =>
         match k, lookup (m_events mc) (ac_event h) with
         | KMethod, None =>
             (* getattr(model, name) fails *)
-            let w' := mkAW (aw_states w) (aw_queues w) (S (aw_next w)) in
-            (L [L []; e_aresult (AwExn AttributeError); e_states w'; N (pending w')], w')
+            let w' := mkAW (aw_states w) (aw_queues w) (S (aw_next w)) (aw_models w) in
+            (L [L []; e_aresult (AwExn AttributeError); e_states w'; N (pending w'); e_list e_nat (aw_models w')], w')
         | _, _ =>
             match atop_trigger mc ev suspf md fuel w (ac_model h) (ac_event h) (ac_payload h) with
             | None => (L [N 9], w)
-            | Some (bs, r, w') => (L [e_list e_ablock bs; e_aresult r; e_states w'; N (pending w')], w')
+            | Some (bs, r, w') => (L [e_list e_ablock bs; e_aresult r; e_states w'; N (pending w'); e_list e_nat (aw_models w')], w')
             end
         end
     end.
@@ -179,7 +179,7 @@ Definition run_async_case (x : sx) : sx :=
       match d_machine mcx, d_aenv evx, d_susp sux, d_qmode mdx,
             d_list (d_pair d_nat d_nat) msx, d_list d_acall hx with
       | Some mc, Some ev, Some su, Some md, Some ms, Some hs =>
-          L [N 1; L (run_ahistory mc ev su md 200 hs (mkAW ms [] 0)); L (run_sync_history mc ev hs ms)]
+          L [N 1; L (run_ahistory mc ev su md 200 hs (mkAW ms [] 0 (map fst ms))); L (run_sync_history mc ev hs ms)]
       | _, _, _, _, _, _ => L [N 0]
       end
   | L [N 1; L [mcx; evx0; N m; inix; hx]; evx; sux] =>
